@@ -44,6 +44,7 @@ class StubConn(BaseConnection):
         self.pending = []       # absolute (time, payload)
         self.t_send = None
         self.fail_send = None   # exception to raise from send
+        self.send_delay = 0     # ticks the transport blocks inside send(); windows are measured from its return
         self.responder = None   # callable(payload) -> list of (ticks, payload) scripted for this send
         self.open_calls = 0
         self.close_calls = 0
@@ -69,6 +70,7 @@ class StubConn(BaseConnection):
         self.log.append(('send', bytes(payload)))
         if self.fail_send is not None:
             raise self.fail_send
+        self.clock.now += self.send_delay * TICK
         self.t_send = self.clock.now
         if self.responder is not None:
             self.script = list(self.responder(bytes(payload)))
